@@ -1,6 +1,5 @@
-(** C11 — royalties never take more than half of any traded amount (arithmetic core; the
-    purchase-level statements are in C02 / C06). *)
-From FM Require Import RoyaltyArith.
+(** C11 — royalties never take more than half of any traded amount. *)
+From FM Require Import BuySpec.
 
 (** The gate is exact: refused iff the registered rates sum to more than 5000 bps. *)
 Theorem C11_gate : forall g resp,
@@ -39,6 +38,23 @@ Print Assumptions C11_never_zero.
 Theorem C11_unregistered_free : forall resp, registered (None :: resp) = registered resp.
 Proof. reflexivity. Qed.
 Print Assumptions C11_unregistered_free.
+
+(** Purchase level.  If the rates of the distinct registered collections on one side sum to
+    more than 5000 bps, the purchase message is refused (hence without effect) ... *)
+Theorem C11_over_half_refused : forall w a fs l_id b_id kl l b,
+  Inv (market w) -> reg_link w ->
+  find_by_id l_id (listings (market w)) = Some (kl, l) -> find_key (a, b_id) (buckets (market w)) = Some b ->
+  (5000 < due w (colls_of (for_sale l)) \/ 5000 < due w (colls_of (funds b))) ->
+  execute (oracle_of w) (env_of w) a fs (BuyListing l_id b_id) (market w) = Err.
+Proof. exact over_half_refused. Qed.
+Print Assumptions C11_over_half_refused.
+
+(** ... while any sum up to and including 5000 is accepted when the other terms are met
+    (C02), with no assumption on the registry contents. *)
+Theorem C11_gate_no_registry_assumption : forall g resp,
+  wf_amounts g -> total_bps (registered resp) <= 5000 -> is_ok (royalties g resp) = true.
+Proof. intros g resp Hw Ht. rewrite (royalties_exact g resp Hw Ht). reflexivity. Qed.
+Print Assumptions C11_gate_no_registry_assumption.
 
 Example C11_hyps_met :
   let rs := repeat (mkR 1 300 5) 16 ++ [mkR 1 200 4] in
